@@ -402,6 +402,62 @@ Example sts_applied_no_disconnect_record :
   applyStsPolicy 100%Z n (Server [104] 6667 0 false) = (n, Ok (Server [104] 6697 0 true)).
 Proof. vm_compute. reflexivity. Qed.
 
+(* ---- every connection: the ServersMixin state machine over histories ---- *)
+(* a _getNextServer call is good if, whenever the host of the server it returned
+   had an unexpired stored policy when the call was made, the returned server has
+   the policy's port and forced verification *)
+Definition next_good (rec : Z * netstore * res server) : Prop :=
+  let '(now, n, r) := rec in
+  forall sv', r = Ok sv' ->
+  forall pol port duration,
+    dict_get (sv_host sv') (policies n) = Some pol -> parseStsPolicy2 pol true = Some (port, duration) ->
+    unexpired now n (sv_host sv') duration ->
+    sv_port sv' = port /\ sv_force sv' = true.
+
+Lemma apply_good now n sv : next_good (now, n, snd (applyStsPolicy now n sv)).
+Proof.
+  unfold next_good, applyStsPolicy, unexpired. intros sv' Hr pol port duration Hp Hparse Hu.
+  destruct (dict_get (sv_host sv) (policies n)) as [pol0|] eqn:E0.
+  - destruct (parseStsPolicy2 pol0 true) as [[port0 dur0]|] eqn:Ep; [|discriminate].
+    destruct (match dict_get (sv_host sv) (discs n) with Some last => Z.ltb (last + dur0) now | None => false end) eqn:Ex;
+      cbn [snd] in Hr; inversion Hr; subst sv'; cbn [sv_host sv_port sv_force] in *.
+    + (* expired: contradicts unexpired *)
+      rewrite E0 in Hp. inversion Hp; subst pol0. rewrite Ep in Hparse. inversion Hparse; subst.
+      destruct (dict_get (sv_host sv) (discs n)) as [last|]; [|discriminate]. apply Z.ltb_lt in Ex. lia.
+    + rewrite E0 in Hp. inversion Hp; subst pol0. rewrite Ep in Hparse. inversion Hparse; subst. split; reflexivity.
+  - cbn [snd] in Hr. inversion Hr; subst sv'. rewrite E0 in Hp. discriminate.
+Qed.
+
+Theorem every_connection conf evs : forall nm, Forall next_good (mrun conf nm evs).
+Proof.
+  induction evs as [|e evs IH]; intros [n m]; cbn [mrun]; [constructor|].
+  destruct e as [h p|now h|now]; cbn [mstep]; try apply IH.
+  unfold getNextServer.
+  assert (Hcase : forall sv rest,
+    Forall next_good
+      (let '(n', m', o) :=
+         (let '(n', m', r) := (let '(n', r) := applyStsPolicy now n sv in
+                               match r with
+                               | Ok sv' => (n', Mixin rest (Some sv'), r)
+                               | Raise _ => (n', Mixin rest (m_current m), r)
+                               end) in (n', m', Some r)) in
+       match o with Some res => (now, fst (n, m), res) :: mrun conf (n', m') evs | None => mrun conf (n', m') evs end)).
+  { intros sv rest. pose proof (apply_good now n sv) as Hg. destruct (applyStsPolicy now n sv) as [n' r]. cbn [snd fst] in *.
+    destruct r as [sv'|e]; (constructor; [exact Hg|apply IH]). }
+  destruct (m_servers m) as [|s0 l0]; [destruct conf as [|sv rest]|]; try apply Hcase.
+  cbn [fst]. constructor; [|apply IH]. intros sv' Hr. discriminate.
+Qed.
+
+(* the seeded-change scenario: two entries for one host, a policy stored after the list was loaded:
+   the second, pre-loaded entry is still upgraded when it is popped *)
+Example every_connection_preloaded :
+  let h := [104] in
+  let conf := [Server h 6667 0 false; Server h 8000 0 false] in
+  let pol := s_port ++ [61;54;54;57;55;44] ++ s_duration ++ [61;49;48;48] in
+  map (fun rec => snd rec) (mrun conf (Net [] [], Mixin [] None) [MNext 10; MStore h pol; MDisc 20 h; MNext 30])
+  = [Ok (Server h 6667 0 false); Ok (Server h 6697 0 true)].
+Proof. vm_compute. reflexivity. Qed.
+
 (* expiry: removed and not applied *)
 Theorem sts_expired now n sv pol last port duration :
   dict_get (sv_host sv) (policies n) = Some pol -> parseStsPolicy2 pol true = Some (port, duration) ->
